@@ -116,15 +116,22 @@ pub fn run_interp(c: &BlockCase) -> String {
   let p = &mut core.memory as *mut MemoryAreas;
   verif_trace::start();
   let mut st;
+  // did a host block located in the switchable ROM bank write to the cartridge's banking registers (0x2000-0x7fff)?  (the
+  // trigger of the recorded finding of C03: translated code goes on in the old bank's translation; reported under its tag)
+  let mut remapped = 0;
+  let mut all = Vec::new();
   loop {
     // the interpreter ends ROM blocks at region ends exactly like the translator; go on until the guest terminator ran
     let ip = core.registers.ip as usize;
     let term = ip >= 0x8000 || ends_with_terminator(&core, ip);
+    verif_trace::start();
     st = interpreter::run_code_block(&mut core.registers, p);
+    let tr = verif_trace::take();
+    if ip >= 0x4000 && ip < 0x8000 && tr.iter().any(|t| t.0 == 1 && t.1 >= 0x2000 && t.1 < 0x8000) { remapped = 1; }
+    all.extend(tr);
     if term { break; }
   }
-  let tr = verif_trace::take();
-  outcome(&mut core, st, c, tr)
+  format!("{};{}", outcome(&mut core, st, c, all), remapped)
 }
 
 /// does the translation starting at `ip` end with a real block terminator (rather than at the end of its ROM region)?
@@ -188,6 +195,11 @@ pub fn child(opts: &Opts) {
   }
 }
 
+/// `outcome;remapped` of the interpreter run -> (outcome, remapped)
+fn split_rm(i: &str) -> (String, String) {
+  match i.rfind(';') { Some(k) if i != "died" => (i[..k].to_string(), i[k + 1..].to_string()), _ => (i.to_string(), String::from("0")) }
+}
+
 pub fn total(thorough: bool) -> usize { if thorough { 500 * 400 + 100_000 } else { 500 * 12 + 2_000 } }
 
 pub fn run(sub: &str, opts: &Opts, w: &mut dyn Write) {
@@ -208,11 +220,12 @@ pub fn run(sub: &str, opts: &Opts, w: &mut dyn Write) {
     for l in so.lines() {
       let mut it = l.splitn(3, ' ');
       match (it.next(), it.next().and_then(|x| x.parse::<usize>().ok()), it.next()) {
-        (Some("I"), Some(idx), Some(rest)) => { last_i = Some((idx, rest.to_string())); },
+        (Some("I"), Some(idx), Some(rest)) => { last_i = Some((idx, rest.to_string())); },   // outcome;remapped
         (Some("J"), Some(idx), Some(rest)) => {
           if let Some((ii, i)) = last_i.take() { if ii == idx {
             let c = gen(opts.seed, idx, opts.thorough);
-            writeln!(w, "{} | i={} j={} jd=0", header_part(idx, &c), i, rest).unwrap();
+            let (i, rm) = split_rm(&i);
+            writeln!(w, "{} | i={} rm={} j={} jd=0", header_part(idx, &c), i, rm, rest).unwrap();
             next = idx + 1;
           }}
         },
@@ -225,7 +238,8 @@ pub fn run(sub: &str, opts: &Opts, w: &mut dyn Write) {
       let why = match out.status.signal() { Some(s) => format!("sig{}", s), None => format!("exit{}", out.status.code().unwrap_or(-1)) };
       let c = gen(opts.seed, next, opts.thorough);
       let i = match last_i { Some((ii, i)) if ii == next => i, _ => String::from("died") };
-      writeln!(w, "{} | i={} j=died jd={}", header_part(next, &c), i, why).unwrap();
+      let (i, rm) = split_rm(&i);
+      writeln!(w, "{} | i={} rm={} j=died jd={}", header_part(next, &c), i, rm, why).unwrap();
       next += 1;
     } else if next < hi && out.status.success() {
       break;
